@@ -34,6 +34,29 @@ pub fn send_sync_probe() -> (bool, bool) {
     (p.is_send(), p.is_sync())
 }
 
+fn mk<T>(_: &T) -> Probe<T> {
+    Probe(PhantomData)
+}
+
+/// Are the iterators returned by `tokenize` / `analyze` `Send` on this tree? (They are not
+/// on the pinned tree; a change that makes them `Send` makes handing a live iterator to
+/// another thread legal, and then the harness does it.)
+pub fn iter_send_probe() -> (bool, bool) {
+    let re = match regexml::Regex::xpath("a", "") {
+        Ok(r) => r,
+        Err(_) => return (false, false),
+    };
+    let t = match re.tokenize("a") {
+        Ok(t) => mk(&t).is_send(),
+        Err(_) => false,
+    };
+    let a = match re.analyze("a") {
+        Ok(a) => mk(&a).is_send(),
+        Err(_) => false,
+    };
+    (t, a)
+}
+
 #[allow(dead_code)]
 pub fn selftest() -> bool {
     let a = Probe::<std::cell::RefCell<i32>>(PhantomData);
